@@ -1978,7 +1978,12 @@ void SZ_compress_args_float_NoCkRngeNoGzip_3D_pwr_pre_log(unsigned char** newByt
 void SZ_compress_args_float_NoCkRngeNoGzip_1D_pwr_pre_log_MSST19(unsigned char** newByteData, float *oriData, double pwrErrRatio, size_t dataLength, size_t *outSize, float valueRangeSize, float medianValue_f,
 																unsigned char* signs, bool* positive, float min, float max, float nearZero){
 	float multiplier = pow((1+pwrErrRatio), -3.0001);
-	for(int i=0; i<dataLength; i++){
+	//zeros are represented by a magnitude below the zero threshold: in a copy, the caller's array is left as it is
+	//(it is also what the raw-copy fallback below must store)
+	float* callerData = oriData;
+	oriData = (float*)malloc(dataLength*sizeof(float));
+	memcpy(oriData, callerData, dataLength*sizeof(float));
+	for(size_t i=0; i<dataLength; i++){
 		if(oriData[i] == 0){
 			oriData[i] = nearZero * multiplier;
 		}
@@ -2004,9 +2009,10 @@ void SZ_compress_args_float_NoCkRngeNoGzip_1D_pwr_pre_log_MSST19(unsigned char**
 
 	convertTDPStoFlatBytes_float(tdps, newByteData, outSize);
 	if(*outSize>3 + MetaDataByteLength + exe_params->SZ_SIZE_TYPE + 1 + sizeof(float)*dataLength)
-		SZ_compress_args_float_StoreOriData(oriData, dataLength, newByteData, outSize);
+		SZ_compress_args_float_StoreOriData(callerData, dataLength, newByteData, outSize);
 
 	free_TightDataPointStorageF(tdps);
+	free(oriData);
 }
 
 void SZ_compress_args_float_NoCkRngeNoGzip_2D_pwr_pre_log_MSST19(unsigned char** newByteData, float *oriData, double pwrErrRatio, size_t r1, size_t r2, size_t *outSize, float valueRangeSize,
@@ -2015,7 +2021,12 @@ void SZ_compress_args_float_NoCkRngeNoGzip_2D_pwr_pre_log_MSST19(unsigned char**
 	size_t dataLength = r1 * r2;
 
 	float multiplier = pow((1+pwrErrRatio), -3.0001);
-	for(int i=0; i<dataLength; i++){
+	//zeros are represented by a magnitude below the zero threshold: in a copy, the caller's array is left as it is
+	//(it is also what the raw-copy fallback below must store)
+	float* callerData = oriData;
+	oriData = (float*)malloc(dataLength*sizeof(float));
+	memcpy(oriData, callerData, dataLength*sizeof(float));
+	for(size_t i=0; i<dataLength; i++){
 		if(oriData[i] == 0){
 			oriData[i] = nearZero * multiplier;
 		}
@@ -2041,9 +2052,10 @@ void SZ_compress_args_float_NoCkRngeNoGzip_2D_pwr_pre_log_MSST19(unsigned char**
 
     convertTDPStoFlatBytes_float(tdps, newByteData, outSize);
     if(*outSize>3 + MetaDataByteLength + exe_params->SZ_SIZE_TYPE + 1 + sizeof(float)*dataLength)
-            SZ_compress_args_float_StoreOriData(oriData, dataLength, newByteData, outSize);
+            SZ_compress_args_float_StoreOriData(callerData, dataLength, newByteData, outSize);
 
     free_TightDataPointStorageF(tdps);
+	free(oriData);
 }
 
 void SZ_compress_args_float_NoCkRngeNoGzip_3D_pwr_pre_log_MSST19(unsigned char** newByteData, float *oriData, double pwrErrRatio, size_t r1, size_t r2, size_t r3, size_t *outSize, float valueRangeSize, unsigned char* signs, bool* positive, float min, float max, float nearZero){
@@ -2051,7 +2063,12 @@ void SZ_compress_args_float_NoCkRngeNoGzip_3D_pwr_pre_log_MSST19(unsigned char**
 	size_t dataLength = r1 * r2 * r3;
 
 	float multiplier = pow((1+pwrErrRatio), -3.0001);
-	for(int i=0; i<dataLength; i++){
+	//zeros are represented by a magnitude below the zero threshold: in a copy, the caller's array is left as it is
+	//(it is also what the raw-copy fallback below must store)
+	float* callerData = oriData;
+	oriData = (float*)malloc(dataLength*sizeof(float));
+	memcpy(oriData, callerData, dataLength*sizeof(float));
+	for(size_t i=0; i<dataLength; i++){
 		if(oriData[i] == 0){
 			oriData[i] = nearZero * multiplier;
 		}
@@ -2078,7 +2095,8 @@ void SZ_compress_args_float_NoCkRngeNoGzip_3D_pwr_pre_log_MSST19(unsigned char**
 
 	convertTDPStoFlatBytes_float(tdps, newByteData, outSize);
 	if(*outSize>3 + MetaDataByteLength + exe_params->SZ_SIZE_TYPE + 1 + sizeof(float)*dataLength)
-		SZ_compress_args_float_StoreOriData(oriData, dataLength, newByteData, outSize);
+		SZ_compress_args_float_StoreOriData(callerData, dataLength, newByteData, outSize);
 
 	free_TightDataPointStorageF(tdps);
+	free(oriData);
 }
